@@ -5,6 +5,7 @@
 set -u
 M="$(cd "$1" && pwd)"; TIER="${2:-quick}"
 cd "$(dirname "$0")/.." || exit 2
+export VERIF_EVIDENCE_DIR="$PWD/work/evidence-alt"   # evidence/ is for runs against the unchanged /repo only
 export GOFLAGS=-mod=mod GOPROXY=off GOSUMDB=off GOTOOLCHAIN=local
 WT=/tmp/wt-benign-$$
 git -C /repo worktree add -q --detach "$WT" HEAD || exit 2
